@@ -48,6 +48,12 @@ def main():
         rc0, o0 = sh(f'/venv/bin/python {sd}/demo.py', cwd=wt, env=env)
         res['demo_without_patch_rc'] = rc0
         rc, out = sh(f'git -C {wt} apply --whitespace=nowarn {sd}/patch.diff')
+        if rc != 0:  # the code moved on (fix: commits) since the patch was written: 3-way merge against the recorded blobs
+            rc, out2 = sh(f'git -C {wt} apply --3way --whitespace=nowarn {sd}/patch.diff')
+            res['applied_with'] = '3way'
+            if rc == 0 and 'with conflicts' in out2:
+                rc, out = 1, out2
+            sh(f'git -C {wt} reset -q')
         res['patch_applies'] = rc == 0
         if rc != 0:
             res['apply_error'] = out[-500:]
